@@ -373,6 +373,9 @@ func traversalRule(c *core.Ctx, name string, fn *ssa.Function, LT, GT int64) str
 				m.nx[h] = phi
 			default:
 				if b, isB := phi.Type().Underlying().(*types.Basic); isB && b.Info()&types.IsInteger != 0 {
+					if tallyOnly(phi, map[ssa.Value]bool{}) {
+						continue // a statistic (hops followed): only ever incremented and handed to sync/atomic
+					}
 					if m.lp != nil && m.lp != phi {
 						c.Undecided("level-loops", name, phi.Pos(), "more than one loop-carried integer: the level counter is ambiguous")
 						return ""
@@ -903,4 +906,53 @@ func (m *travModel) segment(p *ir.Path, list, head, pathT *ir.Term, recordsPath 
 	} else if to == nil {
 		m.failEff(lastPos(p), "the traversal does not return")
 	}
+}
+
+
+// tallyOnly: the loop-carried integer v is a statistic - every use of it is an addition of a constant feeding a phi of
+// the same kind, a phi, a conversion, or an argument of a sync/atomic function. It decides nothing and indexes nothing.
+func tallyOnly(v ssa.Value, seen map[ssa.Value]bool) bool {
+	if seen[v] {
+		return true
+	}
+	seen[v] = true
+	refs := v.Referrers()
+	if refs == nil {
+		return false
+	}
+	for _, r := range *refs {
+		switch x := r.(type) {
+		case *ssa.DebugRef:
+		case *ssa.Phi:
+			if !tallyOnly(x, seen) {
+				return false
+			}
+		case *ssa.Convert:
+			if !tallyOnly(x, seen) {
+				return false
+			}
+		case *ssa.BinOp:
+			if x.Op != token.ADD {
+				return false
+			}
+			other := x.Y
+			if other == v {
+				other = x.X
+			}
+			if _, isK := other.(*ssa.Const); !isK {
+				return false
+			}
+			if !tallyOnly(x, seen) {
+				return false
+			}
+		case *ssa.Call:
+			sc := x.Call.StaticCallee()
+			if sc == nil || sc.Pkg == nil || sc.Pkg.Pkg.Path() != "sync/atomic" {
+				return false
+			}
+		default:
+			return false
+		}
+	}
+	return true
 }
